@@ -1,7 +1,7 @@
 (* Proofs about Model/Beat.v (property C20): expiry selection, checker pass, operation
    sequences under a virtual clock, integrity check. *)
 From Coq Require Import List ZArith Bool Lia ZifyBool ZifyNat ZifyN Arith.
-Require Import Mistral.Gen.States Mistral.Model.Beat.
+Require Import Mistral.Gen.States Mistral.Gen.IntegrityShape Mistral.Model.Beat.
 Import ListNotations.
 Open Scope Z_scope.
 
@@ -749,13 +749,44 @@ Proof.
         congruence.
 Qed.
 
+(* the guards extracted from the source are exactly: negative delay, workflow missing, workflow completed *)
+Lemma rearms_iff delay wf :
+  rearms delay wf = true <-> 0 <= delay /\ exists ws, wf = Some ws /\ is_completed ws = false.
+Proof.
+  unfold rearms, rearm_guards. cbn [existsb guard_blocks].
+  destruct (delay <? 0) eqn:D; cbn [orb negb].
+  - split; [discriminate | intros (H & _); lia].
+  - destruct wf as [ws|]; cbn [orb negb].
+    + destruct (is_completed ws) eqn:C; cbn [orb negb].
+      * split; [discriminate | intros (_ & ws' & E & H)]. inversion E; subst. congruence.
+      * split; [intros _; split; [lia|]; exists ws; auto | reflexivity].
+    + split; [discriminate | intros (_ & ws & E & _); discriminate].
+Qed.
+
+Lemma integrity_pass_unfold delay batch now wf tasks :
+  integrity_pass delay batch now wf tasks =
+  if delay <? 0 then (false, [])
+  else match wf with
+       | None => (false, [])
+       | Some ws =>
+           if is_completed ws then (false, [])
+           else (true, map t_id (filter (stuck_decision delay now)
+                                        (firstn batch (filter is_running_row tasks))))
+       end.
+Proof.
+  unfold integrity_pass, rearms, rearm_guards. cbn [existsb guard_blocks].
+  destruct (delay <? 0); cbn [orb negb]; [reflexivity|].
+  destruct wf as [ws|]; cbn [orb negb]; [|reflexivity].
+  destruct (is_completed ws); reflexivity.
+Qed.
+
 Lemma integrity_pass_iff delay batch now ws tasks i :
   In i (snd (integrity_pass delay batch now (Some ws) tasks)) <->
   0 <= delay /\ is_completed ws = false /\
   exists t, In t (firstn batch (filter is_running_row tasks)) /\ t_id t = i /\
             stuck_decision delay now t = true.
 Proof.
-  unfold integrity_pass. destruct (delay <? 0) eqn:D.
+  rewrite integrity_pass_unfold. destruct (delay <? 0) eqn:D.
   - cbn. split; [intros [] | intros (H & _); lia].
   - destruct (is_completed ws); cbn [snd].
     + split; [intros [] | intros (_ & H & _); discriminate].
@@ -779,7 +810,7 @@ Lemma integrity_recovers delay batch now ws tasks t :
   In (t_id t) (snd (integrity_pass delay batch now (Some ws) tasks)).
 Proof.
   intros Hd Hw Hin Hne Hall Hts Hch. split.
-  - unfold integrity_pass. assert (delay <? 0 = false) as -> by lia. rewrite Hw. reflexivity.
+  - rewrite integrity_pass_unfold. assert (delay <? 0 = false) as -> by lia. rewrite Hw. reflexivity.
   - apply integrity_pass_iff. repeat split; auto. exists t. repeat split; auto.
     apply stuck_decision_iff. repeat split; auto. intros c Hc. specialize (Hch c Hc). lia.
 Qed.
@@ -813,17 +844,17 @@ Proof.
     exists t. repeat split; auto.
     + apply state_eqb_running. exact Hr.
     + specialize (H4 c H). lia.
-  - unfold integrity_pass. destruct (delay <? 0); intros [].
+  - rewrite integrity_pass_unfold. destruct (delay <? 0); intros [].
 Qed.
 
 (* C20_integrity_disabled *)
 Lemma integrity_disabled delay batch now wf tasks :
   delay < 0 -> integrity_pass delay batch now wf tasks = (false, []).
-Proof. intros H. unfold integrity_pass. assert (delay <? 0 = true) as -> by lia. reflexivity. Qed.
+Proof. intros H. rewrite integrity_pass_unfold. assert (delay <? 0 = true) as -> by lia. reflexivity. Qed.
 
 Lemma integrity_finished_wf delay batch now ws tasks :
   is_completed ws = true -> integrity_pass delay batch now (Some ws) tasks = (false, []).
-Proof. intros H. unfold integrity_pass. rewrite H. destruct (delay <? 0); reflexivity. Qed.
+Proof. intros H. rewrite integrity_pass_unfold. rewrite H. destruct (delay <? 0); reflexivity. Qed.
 
 (* C20_integrity_batch_window: only the first `batch` RUNNING tasks are ever looked at *)
 Lemma integrity_window delay batch now wf tasks i :
@@ -833,7 +864,7 @@ Proof.
   destruct wf as [ws|].
   - intros H. apply integrity_pass_iff in H as (_ & _ & t & Hin & E & _).
     apply in_map_iff. exists t. auto.
-  - unfold integrity_pass. destruct (delay <? 0); intros [].
+  - rewrite integrity_pass_unfold. destruct (delay <? 0); intros [].
 Qed.
 
 (* the check re-schedules itself every 120 s while the workflow runs: every stuck task
@@ -892,3 +923,244 @@ Lemma heartbeat_error_only_if_stale c ops s :
   forall e, In e (log (run c ops s)) -> e_kind e = RHeartbeat ->
   enabled c = true /\ exists h, e_hb e = Some h /\ h < e_at e - max_missed c * interval c.
 Proof. intros H e He. exact (stale_run c ops s H e He). Qed.
+
+(* ------------------------------------------------------------------ *)
+(* the chain of periodic integrity checks never ends before the workflow does *)
+
+Definition chain_period (delay : Z) : Z := Z.max rearm_period delay.
+
+Lemma period_facts : 0 < rearm_period /\ 0 <= start_check_after /\ start_check_after <= rearm_period.
+Proof. unfold rearm_period, start_check_after. lia. Qed.
+
+Lemma schedule_refuses_iff delay : schedule_refuses delay = (delay <? 0).
+Proof. unfold schedule_refuses, schedule_guards. cbn [existsb guard_blocks]. apply orb_false_r. Qed.
+
+Lemma fst_integrity_pass delay batch now wf tasks :
+  fst (integrity_pass delay batch now wf tasks) = rearms delay wf.
+Proof. unfold integrity_pass. destruct (rearms delay wf); reflexivity. Qed.
+
+Lemma live_iff wf : live wf = true <-> exists ws, wf = Some ws /\ is_completed ws = false.
+Proof.
+  destruct wf as [ws|]; cbn.
+  - rewrite negb_true_iff. split; [intros H; exists ws; auto | intros (ws' & E & H); inversion E; subst; exact H].
+  - split; [discriminate | intros (ws & E & _); discriminate].
+Qed.
+
+Lemma rearms_live delay wf : 0 <= delay -> live wf = true -> rearms delay wf = true.
+Proof. intros Hd Hl. apply rearms_iff. split; [exact Hd|]. apply live_iff. exact Hl. Qed.
+
+Definition Alive (delay : Z) (c : chain) : Prop :=
+  0 <= delay -> live (ch_wf c) = true ->
+  exists j, In j (ch_jobs c) /\ j <= ch_clock c + chain_period delay.
+
+Definition Future (c : chain) : Prop := forall j, In j (ch_jobs c) -> ch_clock c <= j.
+
+Lemma remove_nth_in {A} (k : nat) : forall (l : list A) x, In x (remove_nth k l) -> In x l.
+Proof.
+  induction k as [|k IH]; intros [|y l] x H; cbn in *; auto.
+  destruct H as [H|H]; auto.
+Qed.
+
+Lemma in_remove_nth_neq {A} (k : nat) : forall (l : list A) x y,
+  In x l -> nth_error l k = Some y -> x <> y -> In x (remove_nth k l).
+Proof.
+  induction k as [|k IH]; intros [|z l] x y Hin Hn Hne; cbn in *; try discriminate.
+  - inversion Hn; subst. destruct Hin as [H|H]; [congruence | exact H].
+  - destruct Hin as [H|H]; [left; exact H | right; eapply IH; eauto].
+Qed.
+
+Lemma alive_step delay batch c e : Alive delay c -> Alive delay (cstep delay batch c e).
+Proof.
+  intros HA. pose proof period_facts as (Hp & _ & _).
+  destruct e as [dt|k|l|w|ws]; cbn [cstep].
+  - destruct (forallb _ _); [|exact HA]. intros Hd Hl. destruct (HA Hd Hl) as (j & Hj & Hle).
+    exists j. cbn. split; [exact Hj | lia].
+  - destruct (nth_error (ch_jobs c) k) as [due|]; [|exact HA].
+    destruct (due <=? ch_clock c); [|exact HA].
+    intros Hd Hl. cbn [ch_wf ch_jobs ch_clock] in *.
+    rewrite fst_integrity_pass, (rearms_live _ _ Hd Hl).
+    exists (next_check_at (ch_clock c)). split; [apply in_or_app; right; left; reflexivity|].
+    unfold next_check_at, chain_period. lia.
+  - exact HA.
+  - destruct (live (ch_wf c)) eqn:L; [|exact HA]. intros Hd _. exact (HA Hd L).
+  - intros Hd _. cbn [ch_wf ch_jobs ch_clock].
+    rewrite schedule_refuses_iff. assert (delay <? 0 = false) as -> by lia.
+    exists (ch_clock c + delay). split; [apply in_or_app; right; right; left; reflexivity|].
+    unfold chain_period. lia.
+Qed.
+
+Lemma future_step delay batch c e : Future c -> Future (cstep delay batch c e).
+Proof.
+  intros HF. pose proof period_facts as (Hp & _ & _).
+  destruct e as [dt|k|l|w|ws]; cbn [cstep].
+  - destruct (forallb _ _) eqn:F; [|exact HF]. intros j Hj. cbn in *.
+    rewrite forallb_forall in F. specialize (F j Hj). lia.
+  - destruct (nth_error (ch_jobs c) k) as [due|]; [|exact HF].
+    destruct (due <=? ch_clock c); [|exact HF].
+    intros j Hj. cbn [ch_jobs ch_clock] in *. apply in_app_or in Hj as [Hj|Hj].
+    + apply HF. eapply remove_nth_in; eauto.
+    + destruct (fst _); [|destruct Hj]. destruct Hj as [<-|[]]. unfold next_check_at. lia.
+  - exact HF.
+  - destruct (live (ch_wf c)); exact HF.
+  - intros j Hj. cbn [ch_jobs ch_clock] in *. apply in_app_or in Hj as [Hj|Hj]; [apply HF; exact Hj|].
+    rewrite schedule_refuses_iff in Hj. destruct (delay <? 0) eqn:D; [destruct Hj|].
+    destruct Hj as [<-|[<-|[]]]; lia.
+Qed.
+
+(* C20_chain_never_ends *)
+Lemma alive_run delay batch evs : forall c, Alive delay c -> Alive delay (crun delay batch evs c).
+Proof.
+  induction evs as [|e evs IH]; intros c H; cbn [crun fold_left]; [exact H|].
+  apply IH, alive_step, H.
+Qed.
+
+Lemma future_run delay batch evs : forall c, Future c -> Future (crun delay batch evs c).
+Proof.
+  induction evs as [|e evs IH]; intros c H; cbn [crun fold_left]; [exact H|].
+  apply IH, future_step, H.
+Qed.
+
+Lemma chain_start_ok delay ws t0 : Alive delay (chain_start delay ws t0) /\ Future (chain_start delay ws t0).
+Proof.
+  pose proof period_facts as (Hp & Hs0 & Hs). unfold chain_start. rewrite schedule_refuses_iff. split.
+  - intros Hd _. cbn. assert (delay <? 0 = false) as -> by lia.
+    exists (t0 + start_check_after). split; [left; reflexivity|]. unfold chain_period. lia.
+  - intros j Hj. cbn in *. destruct (delay <? 0); [destruct Hj|]. destruct Hj as [<-|[]]. lia.
+Qed.
+
+Lemma chain_alive delay batch evs c :
+  Alive delay c -> 0 <= delay -> live (ch_wf (crun delay batch evs c)) = true ->
+  ch_jobs (crun delay batch evs c) <> [].
+Proof.
+  intros HA Hd Hl. destruct (alive_run delay batch evs c HA Hd Hl) as (j & Hj & _).
+  intros E. rewrite E in Hj. destruct Hj.
+Qed.
+
+(* a pending check is never skipped: once the clock is past its due time it has run *)
+Definition seen (j : Z) (c : chain) : Prop := In j (ch_jobs c) \/ exists ids, In (j, ids) (ch_fired c).
+
+Lemma seen_step delay batch c e j : Future c -> seen j c -> seen j (cstep delay batch c e).
+Proof.
+  intros HF [Hj|(ids & Hf)].
+  - destruct e as [dt|k|l|w|ws]; cbn [cstep].
+    + destruct (forallb _ _); left; exact Hj.
+    + destruct (nth_error (ch_jobs c) k) as [due|] eqn:N; [|left; exact Hj].
+      destruct (due <=? ch_clock c) eqn:L; [|left; exact Hj].
+      destruct (Z.eq_dec j due) as [->|Hne].
+      * right. assert (due = ch_clock c) as -> by (apply nth_error_In in N; specialize (HF due N); lia).
+        eexists. cbn. apply in_or_app. right. left. reflexivity.
+      * left. cbn. apply in_or_app. left. eapply in_remove_nth_neq; eauto.
+    + left. exact Hj.
+    + destruct (live (ch_wf c)); left; exact Hj.
+    + left. cbn. apply in_or_app. left. exact Hj.
+  - right. exists ids. destruct e as [dt|k|l|w|ws]; cbn [cstep]; auto.
+    + destruct (forallb _ _); exact Hf.
+    + destruct (nth_error (ch_jobs c) k); [|exact Hf]. destruct (_ <=? _); [|exact Hf].
+      cbn. apply in_or_app. left. exact Hf.
+    + destruct (live (ch_wf c)); exact Hf.
+Qed.
+
+Lemma seen_run delay batch evs j : forall c, Future c -> seen j c -> seen j (crun delay batch evs c).
+Proof.
+  induction evs as [|e evs IH]; intros c HF H; cbn [crun fold_left]; [exact H|].
+  apply IH; [apply future_step, HF | apply seen_step; assumption].
+Qed.
+
+(* C20_check_not_skipped *)
+Lemma check_not_skipped delay batch evs c j :
+  Future c -> In j (ch_jobs c) -> j < ch_clock (crun delay batch evs c) ->
+  exists ids, In (j, ids) (ch_fired (crun delay batch evs c)).
+Proof.
+  intros HF Hj Hc. destruct (seen_run delay batch evs j c HF (or_introl Hj)) as [H|H]; [|exact H].
+  pose proof (future_run delay batch evs c HF j H). lia.
+Qed.
+
+(* liveness: a task that is RUNNING with all its executions finished (by T0) inside the batch window
+   has its completion handling re-triggered before the clock passes max(now, T0+delay) + period *)
+Definition stuck_in (batch : nat) (T0 : Z) (t : trow) (l : list trow) : Prop :=
+  In t (firstn batch (filter is_running_row l)) /\ t_children t <> [] /\
+  (forall c, In c (t_children t) -> is_completed (c_state c) = true /\ child_ts c <= T0) /\
+  task_ts t <= T0.
+
+Definition admissible (batch : nat) (T0 : Z) (t : trow) (e : cev) : Prop :=
+  match e with
+  | CTasks l => stuck_in batch T0 t l
+  | CWf w => live w = true
+  | CRerun ws => is_completed ws = false
+  | _ => True
+  end.
+
+Definition Done (t : trow) (c : chain) : Prop :=
+  exists at_ ids, In (at_, ids) (ch_fired c) /\ In (t_id t) ids.
+
+Definition Rinv (batch : nat) (T0 B : Z) (t : trow) (c : chain) : Prop :=
+  live (ch_wf c) = true /\ stuck_in batch T0 t (ch_tasks c) /\ Future c /\
+  (Done t c \/ exists j, In j (ch_jobs c) /\ j <= B).
+
+Lemma done_step delay batch t c e : Done t c -> Done t (cstep delay batch c e).
+Proof.
+  intros (a & ids & Hf & Hi). exists a, ids. split; [|exact Hi].
+  destruct e as [dt|k|l|w|ws]; cbn [cstep]; auto.
+  - destruct (forallb _ _); exact Hf.
+  - destruct (nth_error (ch_jobs c) k); [|exact Hf]. destruct (_ <=? _); [|exact Hf].
+    cbn. apply in_or_app. left. exact Hf.
+  - destruct (live (ch_wf c)); exact Hf.
+Qed.
+
+Lemma rinv_step delay batch T0 B t c e :
+  0 <= delay -> T0 + delay + chain_period delay <= B ->
+  Rinv batch T0 B t c -> admissible batch T0 t e -> Rinv batch T0 B t (cstep delay batch c e).
+Proof.
+  intros Hd HB (Hl & Hs & HF & HK) Ha.
+  pose proof (future_step delay batch c e HF) as HF'.
+  destruct e as [dt|k|l|w|ws]; cbn [cstep] in *.
+  - destruct (forallb _ _); (split; [|split; [|split]]); cbn; auto.
+  - destruct (nth_error (ch_jobs c) k) as [due|] eqn:N; [|(split; [|split; [|split]]); auto].
+    destruct (due <=? ch_clock c) eqn:L; [|(split; [|split; [|split]]); auto].
+    split; [exact Hl|]. split; [exact Hs|]. split; [exact HF'|].
+    destruct HK as [HD|_].
+    { left. apply (done_step delay batch t c (CFire k)) in HD. cbn [cstep] in HD. rewrite N, L in HD. exact HD. }
+    assert (due = ch_clock c) as Edue by (apply nth_error_In in N; specialize (HF due N); lia).
+    destruct (Z_le_gt_dec (ch_clock c) (T0 + delay)) as [Hearly|Hlate].
+    + right. exists (next_check_at (ch_clock c)). cbn [ch_jobs]. split.
+      * apply in_or_app. right. rewrite fst_integrity_pass, (rearms_live _ _ Hd Hl). left. reflexivity.
+      * unfold next_check_at, chain_period in *. lia.
+    + left. apply live_iff in Hl as (ws & Ew & Hc). destruct Hs as (Hw & Hne & Hch & Hts).
+      exists (ch_clock c), (snd (integrity_pass delay batch (ch_clock c) (ch_wf c) (ch_tasks c))).
+      split; [cbn; apply in_or_app; right; left; reflexivity|].
+      rewrite Ew. apply integrity_recovers; auto.
+      * intros x Hx. apply Hch. exact Hx.
+      * lia.
+      * intros x Hx. destruct (Hch x Hx). lia.
+  - (split; [|split; [|split]]); cbn; auto.
+  - rewrite Hl in *. (split; [|split; [|split]]); cbn; auto.
+  - split; [cbn; rewrite Ha; reflexivity|]. split; [exact Hs|]. split; [exact HF'|].
+    destruct HK as [HD|(j & Hj & Hle)]; [left; exact HD|].
+    right. exists j. split; [cbn; apply in_or_app; left; exact Hj | exact Hle].
+Qed.
+
+Lemma rinv_run delay batch T0 B t evs : forall c,
+  0 <= delay -> T0 + delay + chain_period delay <= B ->
+  Rinv batch T0 B t c -> Forall (admissible batch T0 t) evs ->
+  Rinv batch T0 B t (crun delay batch evs c).
+Proof.
+  induction evs as [|e evs IH]; intros c Hd HB HR Ha; cbn [crun fold_left]; [exact HR|].
+  inversion Ha; subst. apply IH; auto. apply rinv_step; auto.
+Qed.
+
+(* C20_stuck_task_repaired *)
+Lemma stuck_task_repaired delay batch T0 t evs c :
+  0 <= delay -> live (ch_wf c) = true -> stuck_in batch T0 t (ch_tasks c) ->
+  Alive delay c -> Future c -> Forall (admissible batch T0 t) evs ->
+  Z.max (ch_clock c) (T0 + delay) + chain_period delay < ch_clock (crun delay batch evs c) ->
+  Done t (crun delay batch evs c).
+Proof.
+  intros Hd Hl Hs HA HF Ha Hc.
+  set (B := Z.max (ch_clock c) (T0 + delay) + chain_period delay) in *.
+  assert (Rinv batch T0 B t c) as HR.
+  { split; [exact Hl|]. split; [exact Hs|]. split; [exact HF|].
+    right. destruct (HA Hd Hl) as (j & Hj & Hle). exists j. split; [exact Hj|]. unfold B. lia. }
+  destruct (rinv_run delay batch T0 B t evs c Hd ltac:(unfold B; lia) HR Ha) as (_ & _ & HF' & [HD|(j & Hj & Hle)]);
+    [exact HD|].
+  specialize (HF' j Hj). lia.
+Qed.
